@@ -162,6 +162,30 @@ def script (cfg : Config) (st : State) : List Bytes :=
   (if cfg.gather.rules == .skip then []
    else exchangeDatagrams cfg.engine st.info.protocolVersion cfg.rules (reply 0x45 (encRules st.rules)))
 
+/-! the same exchange when the datagrams of a split reply arrive in another order (UDP does not keep order) -/
+
+/-- the datagrams carrying the final reply to each of the three requests, in the order the server emits them -/
+def infoDatagrams (cfg : Config) (st : State) : List Bytes :=
+  datagrams (withSize cfg.engine 0) cfg.info.transport (infoPacket cfg st)
+def playersDatagrams (cfg : Config) (st : State) : List Bytes :=
+  datagrams (withSize cfg.engine st.info.protocolVersion) cfg.players.transport (reply 0x44 (encPlayers st.players))
+def rulesDatagrams (cfg : Config) (st : State) : List Bytes :=
+  datagrams (withSize cfg.engine st.info.protocolVersion) cfg.rules.transport (reply 0x45 (encRules st.rules))
+
+/-- one exchange with the datagrams of its final reply delivered as `arrival` -/
+def exchangeAs (x : Exchange) (arrival : List Bytes) : List Bytes :=
+  x.challenges.map challengeReply ++ arrival
+
+/-- what the client receives when the final replies are delivered as `ai`, `ap`, `ar`
+(`script cfg st = scriptAs cfg (infoDatagrams cfg st) (playersDatagrams cfg st) (rulesDatagrams cfg st)`) -/
+def scriptAs (cfg : Config) (ai ap ar : List Bytes) : List Bytes :=
+  exchangeAs cfg.info ai ++
+  (if cfg.gather.players == .skip then [] else exchangeAs cfg.players ap) ++
+  (if cfg.gather.rules == .skip then [] else exchangeAs cfg.rules ar)
+
+theorem script_eq_scriptAs (cfg : Config) (st : State) :
+    script cfg st = scriptAs cfg (infoDatagrams cfg st) (playersDatagrams cfg st) (rulesDatagrams cfg st) := rfl
+
 /-- the rules a user is entitled to see (Risk of Rain 2 quirk: rule `Test` is dropped) -/
 def expectedRules (engine : Engine) (rs : Rules) : Rules :=
   if engine == Engine.new 632360 then rs.filter (fun p => p.1 != asciiBytes "Test") else rs
@@ -247,5 +271,24 @@ def wf (cfg : Config) (st : State) : Bool :=
    | e => wfSourceInfo e st.info) &&
   st.players.length < 256 && st.players.all (wfPlayer (cfg.engine == Engine.new 2400)) &&
   st.rules.length < 65536 && st.rules.all (fun p => okStr p.1 && okStr p.2) && distinctKeys st.rules
+
+/-- a transport as the specification prescribes it for this engine: Source engines split in the Source layout
+(uncompressed: bit 31 of the id clear; the fragment count travels in one byte), GoldSrc engines in the GoldSrc layout
+(count and number share one byte: at most 15 fragments).  Any cut points. -/
+def wfTransport (engine : Engine) : Transport → Bool
+  | .single => true
+  | .sourceSplit id sizes =>
+    (match engine with | .source _ => true | .goldSrc _ => false) && id < 2 ^ 31 && sizes.length + 1 < 256
+  | .goldSplit id sizes =>
+    (match engine with | .goldSrc _ => true | .source _ => false) && id < 2 ^ 32 && sizes.length + 1 < 16
+
+/-- the transports of the sections that are asked for (any number of challenge rounds, any challenge bytes) -/
+def wfExchanges (cfg : Config) : Bool :=
+  wfTransport cfg.engine cfg.info.transport &&
+  (cfg.gather.players == .skip || wfTransport cfg.engine cfg.players.transport) &&
+  (cfg.gather.rules == .skip || wfTransport cfg.engine cfg.rules.transport)
+
+/-- every datagram fits the client's receive buffer (6144 bytes; the specification's datagrams are at most 1400) -/
+def fits (ds : List Bytes) : Bool := ds.all (fun d => d.length ≤ PACKET_SIZE)
 
 end Gd.Valve.Spec
